@@ -1,5 +1,5 @@
 NAME = 'S-limit'
-PROPERTIES = ['C08', 'C01']
+PROPERTIES = ['C08', 'C01', 'C24']
 ENGINE = 'verus'
 CLASS = 'U'
 DOC = 'apply_limit_offset returns exactly rows[min(m,len) .. min(m+n,len)) in order, for every usize m, n'
@@ -18,6 +18,13 @@ fn skip_take_collect(rows: Vec<Row>, a: usize, b: usize) -> (r: Vec<Row>)
     ensures r@ == rows@.subrange(
         if a <= rows@.len() { a as int } else { rows@.len() as int },
         if a as int + b as int <= rows@.len() { a as int + b as int } else { rows@.len() as int })
+{ unimplemented!() }
+
+// R4 stub for `$v.drain(..$a);` (std: panics if a > len -> precondition)
+#[verifier::external_body]
+fn drain_prefix(v: &mut Vec<Row>, a: usize)
+    requires a <= old(v)@.len()
+    ensures final(v)@ == old(v)@.subrange(a as int, old(v)@.len() as int)
 { unimplemented!() }
 
 pub open spec fn min(a: int, b: int) -> int { if a <= b { a } else { b } }
@@ -43,7 +50,9 @@ ITEMS = {
         ret='r',
         rewrites=[
             ('lit', 'vibesql_storage::Row', 'Row', 2),
-            ('lit', 'rows.into_iter().skip(start).take(take).collect()', 'skip_take_collect(rows, start, take)', 1),
+            # R4 shapes with holes (any number of occurrences; a chain matching no shape is a Verus compile error => exit 2)
+            ('re', r'(\w+)\.into_iter\(\)\.skip\(([^()]*)\)\.take\(([^()]*)\)\.collect\(\)', r'skip_take_collect(\1, \2, \3)', None),
+            ('re', r'(\w+)\.drain\(\.\.([^()]*)\);', r'drain_prefix(&mut \1, \2);', None),
         ],
         contract='''
     ensures
@@ -62,5 +71,6 @@ CANARIES = ['canary_apply_limit_offset']
 TRUSTED = [
     'external_body skip_take_collect: std Iterator::skip/take/collect on Vec::into_iter (documented behaviour assumed)',
     'external_body Row: row payload opaque',
+    'external_body drain_prefix: Vec::drain(..a) as a statement removes the first a elements (std documented behaviour; its panic is the precondition)',
     'vstd specs: Option::unwrap_or, usize::min, Vec::len, Vec::new',
 ]
